@@ -45,16 +45,10 @@ def all_bases(cs):
         label0, ctor0 = B[cname][0]
         for ulabel, u in UNITS:
             B[cname].append((f"{label0}-{ulabel}", (lambda ctor0=ctor0, u=u: fpr.scaled_copy(ctor0(), u))))
-    # the scalar parameters handed over as zero-dimensional arrays (a value picked out of an array with [()] or np.asarray(x)):
-    # the shape keeps an array then, and arithmetic on it can happen in place - a refused assignment must still change nothing
-    z = lambda x: np.array(float(x))  # noqa: E731
-    extra = {"Circle": lambda: cs.Circle(z(1.3), (0.7, -1.1, 0.0)), "Sphere": lambda: cs.Sphere(z(1.3), (0.7, -1.1, 0.4)),
-             "Ellipse": lambda: cs.Ellipse(z(1.3), z(0.4), (0.7, -1.1, 0.0)), "Ellipsoid": lambda: cs.Ellipsoid(z(1.3), z(0.4), z(0.9), (0.7, -1.1, 0.4)),
-             "ConvexSpheropolygon": lambda: cs.ConvexSpheropolygon(bases.polygons("quad-xy")[0], z(0.4), normal=bases.polygons("quad-xy")[1]),
-             "ConvexSpheropolyhedron": lambda: cs.ConvexSpheropolyhedron(bases.convex_points("chiral7"), z(0.3))}
-    for cname, ctor in extra.items():
+    # the scalar parameters handed over as zero-dimensional arrays: a refused assignment must still change nothing
+    for cname, ctor in bases.zero_d_shapes(cs).items():
         if cname in B:
-            B[cname].append(("parameters-as-0d-arrays", ctor))
+            B[cname].append((bases.ZERO_D, ctor))
     return B
 
 
